@@ -484,6 +484,48 @@ def rule_replicate(chk, cls):
     chk.floor('property replication sites', n, 2)
 
 
+def rule_tag_scans(chk, cls):
+    """scans of the tag array that select particles look at every particle: alignment (real particles first) is only re-established by align_particles and
+    may not be assumed by a scan (tags can be rewritten, particles appended unaligned)"""
+    n = 0
+    for name, fn in sorted(M.methods(cls).items()):
+        M.set_parents(fn)
+        tagvars = set()
+        for a in ast.walk(fn):
+            if isinstance(a, (ast.Assign, ast.AnnAssign)) and a.value is not None:
+                v = U(a.value).replace(' ', '')
+                tg = a.target if isinstance(a, ast.AnnAssign) else a.targets[0]
+                if "properties['tag']" in v or "get_carray('tag')" in v or (isinstance(a.value, ast.Call) and isinstance(a.value.func, ast.Attribute) and
+                                                                              isinstance(a.value.func.value, ast.Name) and a.value.func.value.id in tagvars and
+                                                                              a.value.func.attr in ('get_data_ptr', 'get_npy_array')):
+                    tagvars.add(U(tg))
+                if isinstance(a.value, ast.Attribute) and a.value.attr == 'data' and isinstance(a.value.value, ast.Name) and a.value.value.id in tagvars:
+                    tagvars.add(U(tg))
+        for cmp_ in ast.walk(fn):
+            if not (isinstance(cmp_, ast.Compare) and isinstance(cmp_.left, ast.Subscript)):
+                continue
+            base = cmp_.left.value
+            bname = U(base.value) if isinstance(base, ast.Attribute) and base.attr == 'data' else U(base)
+            if bname not in tagvars or not isinstance(cmp_.left.slice, ast.Name):
+                continue
+            loop = M.enclosing(cmp_, (ast.For,))
+            if loop is None or U(loop.target) != cmp_.left.slice.id:
+                continue
+            n += 1
+            it = loop.iter
+            ok = isinstance(it, ast.Call) and U(it.func) == 'range' and len(it.args) == 1
+            if ok:
+                bound = U(it.args[0]).replace(' ', '')
+                bdefs = [U(a.value).replace(' ', '') for a in ast.walk(fn) if isinstance(a, (ast.Assign, ast.AnnAssign)) and a.value is not None and
+                         U(a.target if isinstance(a, ast.AnnAssign) else a.targets[0]) == bound]
+                ok = any(bound == '%s.length' % v or bound == 'len(%s)' % v for v in tagvars) or \
+                    any(b in ('self.get_number_of_particles()',) or any(b == '%s.length' % v for v in tagvars) for b in bdefs)
+            chk.decide(ok, 'tag-scan-covers-every-particle', '%s@%d' % (name, loop.lineno), node=loop, file=PA, func=name,
+                       detail_bad='the loop that tests the tag of each particle runs over `%s`, not over every particle: particles outside that range keep a tag the caller asked to '
+                                  'act on (the array need not be aligned when this is called)' % U(it), detail_ok='range(<number of particles>)')
+    chk.floor('loops testing the tag of each particle', n, 2)
+
+
 def main(chk):
     chk.explanation = ('Structural coherence rules over every method of ParticleArray (Cython parse tree lowered to ast): '
                        'per-property maps kept in step on delete/rebind/insert, every sized operation scaled by the stride '
@@ -499,6 +541,7 @@ def main(chk):
     rule_align(chk, cls)
     rule_pickle(chk, cls)
     rule_replicate(chk, cls)
+    rule_tag_scans(chk, cls)
     chk.assume('carray methods (resize/remove/c_align_array/copy_values/copy_subset) from the cyarray package behave as documented')
     chk.assume('GPU helper paths (self.gpu...) are out of scope')
     chk.note('__reduce__ does not persist output_property_arrays (a pickled array loses its output list); '
